@@ -21,7 +21,10 @@ import time
 import common as C
 import gen as G
 
-THEOREMS = ['scalar_broadcasts', 'none_propagates', 'length_mismatch_errors', 'spec_result_has_deepest_structure']
+THEOREMS = ['scalar_broadcasts', 'none_propagates', 'length_mismatch_errors', 'spec_result_has_deepest_structure',
+            # model = specification (refinement) on the fragment jag, two array inputs (Proofs_C04_Model1..6.v)
+            'model_refines_spec', 'model_refines_spec_strong', 'model_never_out_of_fuel',
+            'broadcast_refines_spec_partial', 'size1_vs_size0_differs']
 DRIVERS = ('pydrv',)
 COQ_DIR = '/verif/c04/coq'
 COQ_LOGICAL = '-R /verif/coq AwkV -R . AwkBroadcast'
